@@ -427,7 +427,7 @@ def eval_pair(s, d, variant, report, ws="bare", wd="bare"):
             report.outcome("run=exception")
             if ref.verdict == YES:
                 report.violation({"check": "C14", "problem": "runtime_error", "exc": type(e).__name__,
-                                  "coercer": pair_kind(bs, bd)},
+                                  "coercer": pair_kind(s, d)},
                                  f"{text}: converter raised {type(e).__name__}: {e} on f={vshow(v)}", {**case, "value": vshow(v)})
             continue
         placed = getattr(res, "f", R.NO_DEFAULT)
